@@ -1,6 +1,7 @@
 import Duckling.Model.Compile
 import Duckling.Lemmas.Mono
 import Duckling.Lemmas.Seq
+import Duckling.Lemmas.Chain
 /-
   C14 — depth and iteration limits are exact and end in compile errors.
 
@@ -9,6 +10,9 @@ import Duckling.Lemmas.Seq
                          under every larger stack limit (the limit is exact: it only ever adds the error);
   * `C14_full_pile_overflows` with no stack to spare every construct that needs a stack
                          (IF body, loop iteration, RUN, START) is a StackOverflowError, located at the command;
+  * `C14_nest_exact`     **the limit is exact for every depth**: `k` IF / ELIF / ELSE blocks nested inside one another whose bodies run
+                         (conditions true) around code that creates no stack compile with `d` stacks to spare iff `k ≤ d` — for
+                         every `k` and every `d`, in every context and state: one more level is a StackOverflowError, one fewer is none;
   * `C14_sequential`     blocks that follow one another consume no depth: running `a ++ b` is running `a`
                          and then `b` with the same depth budget;
   * `C14_repeat_over_limit` / `C14_repeat_within_limit`  REPEAT accepts exactly the counts 0 … 20000;
@@ -97,5 +101,103 @@ theorem C14_paren_limit (ign closed opp : Bool) :
 theorem C14_limits_are_documented :
     repeatLimit = 20000 ∧ whileLimit = 20000 ∧ parenLimit = 100 ∧
     Generated.cliStackMin = 5 ∧ Generated.cliStackMax = 200 ∧ Generated.optDefaults.stackLimit = 20 := by decide
+
+/-! ### exactness of the depth limit on nested blocks -/
+
+/-- the head line of an IF / ELIF / ELSE block -/
+structure Head where
+  l : PreLine
+  word : Str
+  arg : Option Str
+
+def Head.Ok (h : Head) : Prop :=
+  splitWs1 h.l.content = some (h.word, h.arg) ∧
+  (upper h.word = "IF".toList ∨ upper h.word = "ELIF".toList ∨ upper h.word = "ELSE".toList)
+
+/-- the body of the block runs whenever no branch of the chain has run yet (IF with a true condition; ELSE) -/
+def Head.Runs (h : Head) : Prop :=
+  ∀ ctx st, ifFlag st = false → ∃ st', ifPre ctx ⟨h.l.num, none⟩ h.word (h.arg.map strip) st = .ok (.body st')
+
+/-- `heads` nested inside one another around `leaf` -/
+def nest : List Head → List Node → List Node
+  | [], leaf => leaf
+  | h :: hs, leaf => [.line h.l, .block (nest hs leaf)]
+
+theorem nest_ne_nil (hs : List Head) (leaf : List Node) (hl : leaf ≠ []) : nest hs leaf ≠ [] := by
+  cases hs with
+  | nil => exact hl
+  | cons h t => simp [nest]
+
+theorem isSO_bind_ok {α β : Type} (x : R α) (f : α → R β) (hf : ∀ a, (f a).isSO = false) : (x >>= f).isSO = x.isSO := by
+  cases x with
+  | ok a => exact hf a
+  | err e => rfl
+  | crash e => rfl
+  | oom w => rfl
+
+theorem ifFlag_enterSt (st : St) : ifFlag (enterSt st) = false := by
+  simp [ifFlag, enterSt, VEnv.enter, assocGet]
+
+/-- **exactness**: a nest of `k` running blocks around stack-free code overflows with `d` stacks to spare iff `d < k` -/
+theorem C14_nest_exact (leaf : List Node) (hl : leaf ≠ []) (hleaf : ∀ d ctx st, (exec d leaf ctx st).isSO = false) :
+    ∀ (heads : List Head), (∀ h ∈ heads, h.Ok) → (∀ h ∈ heads, h.Runs) →
+      ∀ (d : Nat) (ctx : Ctx) (st : St), ifFlag st = false →
+        ((exec d (nest heads leaf) ctx st).isSO = true ↔ d < heads.length) := by
+  intro heads
+  induction heads with
+  | nil =>
+    intro _ _ d ctx st _
+    simp [nest, hleaf d ctx st]
+  | cons h hs ih =>
+    intro hok hruns d ctx st hflag
+    have hOk := hok h List.mem_cons_self
+    obtain ⟨st', hpre⟩ := hruns h List.mem_cons_self ctx st hflag
+    let a : Arm := ⟨h.l, h.word, h.arg, nest hs leaf⟩
+    have haOk : a.Ok := ⟨hOk.1, by
+      have := nest_ne_nil hs leaf hl
+      cases hn : nest hs leaf with
+      | nil => exact absurd hn this
+      | cons x y => simp [hasBlockOf, a, hn], hOk.2⟩
+    -- one level: the block command creates one stack for the body
+    have hstep : ∀ child, runNodes child ctx (nest (h :: hs) leaf) st [] =
+        ((runChild child ctx ⟨h.l.num, none⟩ st' (nest hs leaf) ctx.file (enterSt st') >>= fun r =>
+          (.ok { st := leave false st' r.st, out := r.out, sig := r.sig } : Res)) >>= fun r =>
+          if r.sig == .normal then (.ok { st := r.st, out := [] ++ r.out, sig := .normal } : Res)
+          else .ok { st := r.st, out := [] ++ r.out, sig := r.sig }) := by
+      intro child
+      simp only [nest, runNodes, nextBlock]
+      have := stepCmd_arm child ctx a haOk st
+      simp only [a] at this
+      rw [this, hpre]
+      simp only [R.bind_ok, runBlockAct]
+    have hnoSO : ∀ (r : Out), (if r.sig == .normal then (.ok { st := r.st, out := [] ++ r.out, sig := .normal } : Res)
+          else .ok { st := r.st, out := [] ++ r.out, sig := r.sig }).isSO = false := by
+      intro r
+      split <;> rfl
+    have hnoSO2 : ∀ (r : Out), ((.ok { st := leave false st' r.st, out := r.out, sig := r.sig } : Res)).isSO = false := fun _ => rfl
+    cases d with
+    | zero =>
+      have : (exec 0 (nest (h :: hs) leaf) ctx st).isSO = true := by
+        show (runNodes none ctx (nest (h :: hs) leaf) st []).isSO = true
+        rw [hstep none, isSO_bind_ok _ _ hnoSO, isSO_bind_ok _ _ hnoSO2]
+        simp [runChild, overflowErr_isSO]
+      simp [this]
+    | succ d =>
+      have : (exec (d + 1) (nest (h :: hs) leaf) ctx st).isSO = (exec d (nest hs leaf) (ctx.child ⟨h.l.num, none⟩ ctx.file) (enterSt st')).isSO := by
+        show (runNodes (some (exec d)) ctx (nest (h :: hs) leaf) st []).isSO = _
+        rw [hstep (some (exec d)), isSO_bind_ok _ _ hnoSO, isSO_bind_ok _ _ hnoSO2]
+        rfl
+      rw [this, ih (fun x hx => hok x (List.mem_cons_of_mem _ hx)) (fun x hx => hruns x (List.mem_cons_of_mem _ hx)) d _ _ (ifFlag_enterSt st')]
+      simp
+
+/-- non-vacuity: an ELSE block runs its body whenever no branch has run yet — `ELSE` nested in `ELSE` nested in … is such a nest -/
+theorem else_head_runs (n : Nat) : (⟨⟨"ELSE".toList, n⟩, "ELSE".toList, none⟩ : Head).Ok ∧ (⟨⟨"ELSE".toList, n⟩, "ELSE".toList, none⟩ : Head).Runs := by
+  refine ⟨⟨(by show splitWs1 "ELSE".toList = some ("ELSE".toList, none); decide), Or.inr (Or.inr (by show upper "ELSE".toList = "ELSE".toList; decide))⟩, ?_⟩
+  intro ctx st hflag
+  have hup : upper "ELSE".toList = "ELSE".toList := by decide
+  refine ⟨setIfFlag (withFlag st) true, ?_⟩
+  simp only [ifPre, hup, Option.map_none, Option.isNone_none, Option.isSome_none, bne_self_eq_false, Bool.and_false, Bool.false_and,
+    Bool.false_eq_true, if_false, ifCond, R.bind_ok, ifDecide_eq, ifFlag_withFlag, hflag]
+  simp
 
 end Duckling.Props.C14
